@@ -304,7 +304,7 @@ func init() {
 			return s
 		},
 		Run:  c08Run,
-		Rule: "iterables: []int, []string, []interface{}, [n]int, *[]int, *[n]int, arrays whose elements are all zero values, array literal, map[string]int, map[int]string, *map, hash literal, range/between/until, custom Iterator, groupBy, each at every length 0..3 (4 thorough); nil / typed-nil (render nothing) and int/string/struct/func (must be an error). bodies: every sequence of <=3 (4 thorough) statements over 19 items (emit literal/value/key, if+break, if+continue, emit-then-break, nested-if break, bare break/continue, return, let+emit, inner loop plain/with break/with continue/silent, fn literal, inner loops over an Iterator / a slice / nil that re-use the outer loop's variable names) in two tag layouts (one statement per tag; adjacent code tags merged) and 4 placements. Oracle: a reference interpreter over the body gives the expected text for ordered iterables; for maps every iteration starts with a sentinel+key, the observed visiting order must be a permutation (prefix when a break fires) of the entries and the reference run in that order must reproduce the output exactly; maps are additionally rendered under every forced rotation of Go's map iteration order (runtime hook). Control-free bodies are also checked by unrolling (body rendered per element with let-bound loop variables). Non-trivial: length>=2 and body contains a control statement or inner loop.",
+		Rule: "iterables: []int, []string, []interface{}, [n]int, *[]int, *[n]int, arrays whose elements are all zero values, array literal, map[string]int, map[int]string, *map, hash literal, range/between/until, custom Iterator, groupBy, each at every length 0..3 (4 thorough); nil / nil slice / nil map / nil pointer to a slice, array, map, pointer or Iterator (render nothing) and int/string/struct/func (must be an error). bodies: every sequence of <=3 (4 thorough) statements over 19 items (emit literal/value/key, if+break, if+continue, emit-then-break, nested-if break, bare break/continue, return, let+emit, inner loop plain/with break/with continue/silent, fn literal, inner loops over an Iterator / a slice / nil that re-use the outer loop's variable names) in two tag layouts (one statement per tag; adjacent code tags merged) and 4 placements. Oracle: a reference interpreter over the body gives the expected text for ordered iterables; for maps every iteration starts with a sentinel+key, the observed visiting order must be a permutation (prefix when a break fires) of the entries and the reference run in that order must reproduce the output exactly; maps are additionally rendered under every forced rotation of Go's map iteration order (runtime hook). Helper blocks: break / continue (bare, inside if, inside nested if with text) inside the block of a block helper called (emitting or silently, nested 1-2 deep) in the loop body, every hit position: the helper receives the block's text up to the control statement, the call's own result is kept and the loop is broken / continued there. Control-free bodies are also checked by unrolling (body rendered per element with let-bound loop variables). Non-trivial: length>=2 and body contains a control statement or inner loop.",
 		Bound: func(th bool) string {
 			if th {
 				return "lengths 0..4, body sequences <=4"
@@ -504,6 +504,14 @@ func c08Special(t *engine.T) {
 		c.Set("nsl", ns)
 		c.Set("nmap", nm)
 		c.Set("nptr", np)
+		var npa *[2]int
+		var npm *map[string]int
+		var npp **[]int
+		var nit *countIter
+		c.Set("nptra", npa)
+		c.Set("nptrm", npm)
+		c.Set("nptrp", npp)
+		c.Set("nitr", nit)
 		c.Set("i5", 5)
 		c.Set("str", "abc")
 		c.Set("strct", Person{Name: "N"})
@@ -516,7 +524,7 @@ func c08Special(t *engine.T) {
 		c.Set("i0", 0)
 		return c
 	}
-	for _, e := range []string{"nil", "nsl", "nmap", "nptr", "nope"} {
+	for _, e := range []string{"nil", "nsl", "nmap", "nptr", "nptra", "nptrm", "nptrp", "nitr", "nope"} {
 		for _, body := range []string{`x`, `<%= v %>`, `<% break %>`} {
 			src := `A<%= for (k, v) in ` + e + ` { %>` + body + `<% } %>B`
 			e := e
@@ -527,9 +535,6 @@ func c08Special(t *engine.T) {
 						return "", engine.Failf("mismatch", "unknown identifier as iterable rendered %q", out)
 					}
 					return "error", nil
-				}
-				if e == "nptr" && err != nil && out == "" {
-					return "error", nil // a typed nil pointer to a slice: the statement leaves open whether it counts as nil or as non-iterable
 				}
 				if err != nil || out != "AB" {
 					return "", engine.Failf("mismatch", "nil iterable must render nothing: got %q / %v", out, err)
@@ -588,6 +593,108 @@ func c08Special(t *engine.T) {
 				}
 				return "nested-match", nil
 			})
+		}
+	}
+	c08HelperBlocks(t, mk)
+}
+
+// break / continue inside the block of a block helper that sits in a loop body ("however
+// nested"): the helper receives what its block produced up to the control statement, the
+// statement that called the helper keeps its own result, and the control statement then
+// acts on the loop around the call exactly as if the block's text were written inline.
+func c08HelperBlocks(t *engine.T, mk func() *plush.Context) {
+	iters := []struct {
+		src   string
+		elems []string
+	}{{"si0", nil}, {"si1", []string{"10"}}, {"si2", []string{"10", "20"}}, {"si3", []string{"10", "20", "30"}}, {"it3", []string{"1", "2", "3"}}}
+	for _, it := range iters {
+		for hitAt := -1; hitAt < len(it.elems); hitAt++ {
+			for _, ctlw := range []string{"break", "continue"} {
+				for depth := 1; depth <= 2; depth++ {
+					for _, silent := range []bool{false, true} {
+						for _, cond := range []string{"if", "nested-if", "bare"} {
+							if cond == "bare" && hitAt != 0 {
+								continue // an unconditional control statement fires at the first element
+							}
+							target := "none"
+							if hitAt >= 0 {
+								target = it.elems[hitAt]
+							}
+							var ctl string
+							switch cond {
+							case "if":
+								ctl = `<% if (v == ` + target + `) { ` + ctlw + ` } %>`
+							case "nested-if":
+								ctl = `<% if (true) { if (v == ` + target + `) { %>!<% ` + ctlw + ` } } %>`
+							case "bare":
+								ctl = `<% ` + ctlw + ` %>`
+							}
+							if target == "none" {
+								ctl = strings.Replace(ctl, "v == none", "v == 999", 1)
+							}
+							tag := "<%="
+							if silent {
+								tag = "<%"
+							}
+							block := `t` + ctl + `u`
+							call := tag + ` blk() { %>` + block + `<% } %>`
+							if depth == 2 {
+								call = tag + ` blk() { %>a` + tag + ` blk() { %>` + block + `<% } %>d<% } %>`
+							}
+							src := `<<%= for (v) in ` + it.src + ` { %>(<%= v %>` + call + `)<% } %>>`
+							// reference
+							var want strings.Builder
+							want.WriteString("<")
+							for i, e := range it.elems {
+								fires := i == hitAt || (cond == "bare")
+								want.WriteString("(" + e)
+								if !fires {
+									if !silent {
+										if depth == 2 {
+											want.WriteString("{a{tu}d}")
+										} else {
+											want.WriteString("{tu}")
+										}
+									}
+									want.WriteString(")")
+									continue
+								}
+								if !silent {
+									inner := "t"
+									if cond == "nested-if" {
+										inner = "t" // text inside a silent if is not output ... except what the control statement carries
+									}
+									if depth == 2 {
+										want.WriteString("{a{" + inner + "}}")
+									} else {
+										want.WriteString("{" + inner + "}")
+									}
+								}
+								if ctlw == "break" {
+									break
+								}
+							}
+							want.WriteString(">")
+							expect := want.String()
+							nestedIf := cond == "nested-if"
+							t.Case(fmt.Sprintf("helper-block %s depth=%d silent=%v %s", ctlw, depth, silent, q(src)), true, func() (string, *engine.Fail) {
+								out, err := Render(src, mk())
+								if err != nil {
+									return "", engine.Failf("mismatch", "expected %q, got error %v", expect, err)
+								}
+								if nestedIf {
+									// whether the text of the silent if that precedes the control statement is kept is left open
+									out = strings.Replace(out, "t!", "t", -1)
+								}
+								if out != expect {
+									return "", engine.Failf("mismatch", "expected %q, got %q", expect, out)
+								}
+								return "helper-block-" + ctlw, nil
+							})
+						}
+					}
+				}
+			}
 		}
 	}
 }
